@@ -120,7 +120,11 @@ def run_check(pid, tier, seed):
         # the vacuity-probe build runs concurrently with the main run
         NSHARD = 1
         pshards, perr = [], None
-        for sh in range(NSHARD):
+        if os.environ.get("VERIF_NO_PROBES"):
+            # scratch evaluation of seeded changes: the probes guard the CONTRACTS against vacuity and are run by every
+            # registered check; they say nothing about an edited tree
+            perr = "skipped (VERIF_NO_PROBES)"
+        for sh in range(NSHARD if perr is None else 0):
             ppath, pmp, e = vx.extract(bdir, probes=True, name="fb_probe%d" % sh, probe_prop=(None if tier == "thorough" else pid), shard=(NSHARD, sh))
             if e is not None:
                 perr = e
@@ -234,6 +238,12 @@ def run_check(pid, tier, seed):
         else:
             probe_info["error"] = perr
         coverage["vacuity_probes"] = probe_info
+        for name in probe_info["not_failing"]:
+            units.append(("probe:" + name, False))
+        if probe_info["not_failing"]:
+            # an `assert(false)` that verifies: the point is unreachable or the context contradictory - every obligation
+            # behind it is vacuous, so nothing is concluded (never an alarm, never a pass)
+            return finish_undecided_or_replay(pid, tier, seed, t0, "vacuity probe(s) did not fail (unreachable exit or contradictory contract): " + "; ".join(probe_info["not_failing"][:4]), plan)
 
     # ------------------------------------------------------------------ Kani units
     kani_rows = []
@@ -381,9 +391,24 @@ def run_check(pid, tier, seed):
     if rc == 0 and (tentative_undecided or collateral_undecided):
         return undecided(pid, tier, seed, t0, tentative_undecided or collateral_undecided)
 
-    n_obl = len(units)
-    n_ok = sum(1 for _, ok in units if ok)
     level = plan.get("level", "proof")
+    # bounded units (Kani harnesses with a bound, replay stand-ins) and syntactic frames decide together with the proof, but
+    # are never counted as proved: for a proof-level claim `obligations` / `discharged` count only what a verifier
+    # discharged for the full input domain (Verus units and clauses, loop-free / contract Kani units)
+    complete_kani = set("kani:" + r["harness"] for r in kani_rows if not r.get("bounded", True))
+    def is_proof_unit(name):
+        return name.startswith(("verus:", "clause:")) or name in complete_kani
+    if level == "proof":
+        bounded_units = [(n, ok) for n, ok in units if n.startswith(("kani:", "bounded:")) and not is_proof_unit(n)]
+        frame_units = [(n, ok) for n, ok in units if n.startswith("frame:")]
+        coverage["bounded_units"] = {"total": len(bounded_units), "passed": sum(1 for _, ok in bounded_units if ok),
+                                     "names": [n for n, _ in bounded_units], "note": "bounded: decide together with the proof, never counted as proved"}
+        coverage["frame_conditions"] = {"total": len(frame_units), "passed": sum(1 for _, ok in frame_units if ok), "names": [n for n, _ in frame_units]}
+        counted = [(n, ok) for n, ok in units if is_proof_unit(n)]
+    else:
+        counted = units
+    n_obl = len(counted)
+    n_ok = sum(1 for _, ok in counted if ok)
     samples = []
     for c in coverage.get("clauses", [])[:6]:
         samples.append({"clause": c["label"], "discharged": c["ok"]})
@@ -398,7 +423,7 @@ def run_check(pid, tier, seed):
         "solver_ms": solver_ms,
         "samples": samples or [{"note": "no unit ran"}],
         "evaluations": max(1, n_obl), "distinct_nontrivial": n_obl,
-        "rule": "one evaluation per Verus verification unit (function / lemma) in the property's closure, per labelled contract clause carrying this id, and per Kani harness",
+        "rule": "one evaluation per Verus verification unit (function / lemma) in the property's closure and per labelled contract clause carrying this id (plus complete Kani units); bounded units and frames are listed separately (bounded_units, frame_conditions)" if level == "proof" else "one evaluation per Kani harness (bounded ones labelled in bounded_parts) and frame",
         "known_findings_printed": kf_lines,
         "other_properties_failing_units": sorted(set((f["fn"] or "?") for f in other_failures)),
         "explanation": plan.get("explanation", ""),
